@@ -201,30 +201,33 @@ func checkC14(p *Prog, r *Report) {
 
 	r.Rule("R4", "every trigger call passes the inbound msgCounterReference as key and a ResponseMessage carrying that reference, the receiving feature and the message's remote feature, entity and device")
 	nTrig := 0
-	for _, fn := range p.RepoFns("spine") {
-		forEachCall(fn, func(site ssa.CallInstruction) {
-			c, ok := site.(*ssa.Call)
-			if !ok {
-				return
-			}
-			callee := c.Call.StaticCallee()
-			if callee == nil || !(respTrig[callee] || resTrig[callee]) {
-				return
-			}
-			nTrig++
-			args := callArgs(&c.Call)
-			base := fmt.Sprintf("%s|%s#%d", FnName(fn), originName(callee), nTrig)
-			okKey := true
-			msgArg := args[len(args)-1]
-			if respTrig[callee] {
-				okKey = strings.HasSuffix(Path(args[0]), ".RequestHeader.MsgCounterReference")
-			}
-			got := responseMessageFields(msgArg)
-			okMsg := strings.HasSuffix(got["MsgCounterReference"], ".RequestHeader.MsgCounterReference") &&
-				(got["FeatureLocal"] == "recv" || strings.HasPrefix(got["FeatureLocal"], "recv")) &&
-				strings.HasSuffix(got["FeatureRemote"], ".FeatureRemote") && strings.HasSuffix(got["EntityRemote"], ".EntityRemote") && strings.HasSuffix(got["DeviceRemote"], ".DeviceRemote") &&
-				got["Data"] != ""
-			r.Check("R4", base, okKey && okMsg, p.InstrPos(c), fmt.Sprintf("key %s; message %v", Path(args[0]), got))
+	for _, fn0 := range p.RepoFns("spine") {
+		fn := fn0
+		p.InScope(fn, func() {
+			forEachCallOwn(fn, func(site ssa.CallInstruction) {
+				c, ok := site.(*ssa.Call)
+				if !ok {
+					return
+				}
+				callee := c.Call.StaticCallee()
+				if callee == nil || !(respTrig[callee] || resTrig[callee]) {
+					return
+				}
+				nTrig++
+				args := callArgs(&c.Call)
+				base := fmt.Sprintf("%s|%s#%d", FnName(fn), originName(callee), nTrig)
+				okKey := true
+				msgArg := args[len(args)-1]
+				if respTrig[callee] {
+					okKey = strings.HasSuffix(Path(args[0]), ".RequestHeader.MsgCounterReference")
+				}
+				got := responseMessageFields(msgArg)
+				okMsg := strings.HasSuffix(got["MsgCounterReference"], ".RequestHeader.MsgCounterReference") &&
+					(got["FeatureLocal"] == "recv" || strings.HasPrefix(got["FeatureLocal"], "recv")) &&
+					strings.HasSuffix(got["FeatureRemote"], ".FeatureRemote") && strings.HasSuffix(got["EntityRemote"], ".EntityRemote") && strings.HasSuffix(got["DeviceRemote"], ".DeviceRemote") &&
+					got["Data"] != ""
+				r.Check("R4", base, okKey && okMsg, p.InstrPos(c), fmt.Sprintf("key %s; message %v", Path(args[0]), got))
+			})
 		})
 	}
 	r.Floor("R4", "trigger call sites", nTrig, 2)
@@ -234,6 +237,17 @@ func checkC14(p *Prog, r *Report) {
 // responseMessageFields reads the fields stored into the local ResponseMessage a value was loaded from.
 func responseMessageFields(v ssa.Value) map[string]string {
 	got := map[string]string{}
+	// built by an extracted constructor helper: look at what the helper returns (its parameters stand for the arguments)
+	if c, isCall := v.(*ssa.Call); isCall {
+		if h := c.Call.StaticCallee(); h != nil && curProg != nil && curProg.helperCandidate(h) {
+			for _, b := range h.Blocks {
+				if ret, isRet := b.Instrs[len(b.Instrs)-1].(*ssa.Return); isRet && len(ret.Results) == 1 {
+					return responseMessageFields(ret.Results[0])
+				}
+			}
+		}
+		return got
+	}
 	u, ok := v.(*ssa.UnOp)
 	if !ok {
 		return got
